@@ -1,0 +1,50 @@
+//go:build verif
+
+package ref
+
+// Contracts checked by /verif (govc). Comment-only file; not part of normal builds.
+
+// C15 "replacing the tag or digest leaves every other component unchanged"; the printed form is
+// refreshed from the new components.
+//@ func (Ref).SetTag(tag) (out)
+//@   prop C15
+//@   inline CommonName
+//@   ensures sets-tag: out.Tag == tag && out.Digest == ""
+//@   ensures frame: out.Scheme == r.Scheme && out.Registry == r.Registry && out.Repository == r.Repository && out.Path == r.Path
+//@   ensures reference-refreshed: out.Reference == out.CommonName()
+//@ func (Ref).SetDigest(digest) (out)
+//@   prop C15
+//@   inline CommonName
+//@   ensures sets-digest: out.Digest == digest && out.Tag == ""
+//@   ensures frame: out.Scheme == r.Scheme && out.Registry == r.Registry && out.Repository == r.Repository && out.Path == r.Path
+//@   ensures reference-refreshed: out.Reference == out.CommonName()
+//@ func (Ref).AddDigest(digest) (out)
+//@   prop C15
+//@   inline CommonName
+//@   ensures sets-digest-keeps-tag: out.Digest == digest && out.Tag == r.Tag
+//@   ensures frame: out.Scheme == r.Scheme && out.Registry == r.Registry && out.Repository == r.Repository && out.Path == r.Path
+//@   ensures reference-refreshed: out.Reference == out.CommonName()
+
+// C15 post-processing of the parser (everything after the regular-expression match, with the
+// match result an arbitrary list of strings): Docker Hub normalisation and defaults.
+//@ ufun $contains(string, string) bool
+//@ axiom contains-library-prefix: forall(b, string, $contains("library/" + b, "/"))
+//@ extern strings.Contains(s, substr) (b)
+//@   pure
+//@   ensures b == $contains(s, substr)
+//@ func New(parse) (ret, err)
+//@   prop C15
+//@   ensures [known F9] scheme-printable: err == nil ==> ret.Scheme == "reg" || ret.Scheme == "ocidir"
+//@   ensures error-is-zero: err != nil ==> ret == Ref{}
+//@   ensures reg-complete: err == nil && ret.Scheme == "reg" ==> ret.Repository != "" && ret.Registry != "" && (ret.Tag != "" || ret.Digest != "") && ret.Path == ""
+//@   ensures hub-canonical-registry: err == nil && ret.Scheme == "reg" ==> ret.Registry != "index.docker.io" && ret.Registry != "registry-1.docker.io"
+//@   ensures hub-library-prefix: err == nil && ret.Scheme == "reg" && ret.Registry == "docker.io" ==> $contains(ret.Repository, "/")
+//@   ensures ocidir-path: err == nil && ret.Scheme == "ocidir" ==> ret.Path != "" && ret.Registry == "" && ret.Repository == ""
+//@   ensures keeps-input: err == nil ==> ret.Reference == parse
+
+// C15 printing: a complete reference never prints as the empty string, and an unknown scheme
+// prints as nothing (which is why New must only produce the two printable schemes).
+//@ func (Ref).CommonName() (cn)
+//@   prop C15
+//@   ensures reg-nonempty: r.Scheme == "reg" && r.Repository != "" ==> cn != ""
+//@   ensures unknown-scheme-empty: r.Scheme != "reg" && r.Scheme != "ocidir" ==> cn == ""
